@@ -60,13 +60,15 @@ func (cs *clientState) watchesOtherDb(ds *dataStore) bool {
 // The caller owns the lock of database locked. Keys watched in another database
 // (WATCH, then SELECT) are examined under that database's own lock; the caller
 // must hold multiDataStoreLock in that case (two database locks at once).
+func watchKeyLess(a, b watchKey) bool {
+	if a.key != b.key {
+		return a.key < b.key
+	}
+	return simOrdinal(a.ds) < simOrdinal(b.ds)
+}
+
 func isAbortedExecUnlocked(cs *clientState, locked *dataStore) bool {
-	for _, watch := range simKeys(cs.watches, func(a, b watchKey) bool {
-		if a.key != b.key {
-			return a.key < b.key
-		}
-		return simOrdinal(a.ds) < simOrdinal(b.ds)
-	}) {
+	for _, watch := range simKeys(cs.watches, watchKeyLess) {
 		id := cs.watches[watch]
 		if watch.ds == locked {
 			// caller holds exclusive lock, so go directly to the data store for this check
@@ -121,6 +123,23 @@ func fnExec(ctx *cmdContext, args map[string]any) (output respValue, err error) 
 	// take complete ownership of the data store
 	ctx.dsc.acquireExclusive()
 	defer ctx.dsc.releaseExclusive()
+	owned := map[*dataStore]*dataStoreCommand{ctx.dsc.ds: ctx.dsc}
+	ctx.cs.execOwned = owned
+	defer func() { ctx.cs.execOwned = nil }()
+
+	// ... and of every other database a watched key lives in (WATCH, then
+	// SELECT), from the check of the watches to the end of the queue: were it
+	// only locked for the check, the key could change between the check and the
+	// moment a queued SELECT brings the transaction to that database, and the
+	// transaction would run on a state it should have been aborted by
+	for _, watch := range simKeys(ctx.cs.watches, watchKeyLess) {
+		if _, isOwned := owned[watch.ds]; !isOwned {
+			owner := watch.ds.newDataStoreCommand()
+			owner.acquireExclusive()
+			defer owner.releaseExclusive()
+			owned[watch.ds] = owner
+		}
+	}
 
 	// maintain in-progress flag
 	ctx.cs.setMultiInProgress(true)
@@ -136,9 +155,6 @@ func fnExec(ctx *cmdContext, args map[string]any) (output respValue, err error) 
 
 	// process all of the queued commands, regardless if one errors
 	results := make([]any, 0, len(*ctx.cs.cmdQueue))
-	owned := map[*dataStore]*dataStoreCommand{ctx.dsc.ds: ctx.dsc}
-	ctx.cs.execOwned = owned
-	defer func() { ctx.cs.execOwned = nil }()
 	for _, cc := range *ctx.cs.cmdQueue {
 		// a queued SELECT takes effect when it runs: the commands after it work
 		// on the database selected then (they were prepared on the one selected
